@@ -305,7 +305,7 @@ def run(facts, res):
     if cmpb is not None:
         try:
             tab = c05.abstract_cmp_table(cmpb, facts)
-            bad = [k for k, v in tab.items() if v == "=" and k[3] != "="]
+            bad = [k for k, v in tab.items() if (v == "=" and k[3] != "=") or v.startswith("«")]
             res.instance("P4", "cmp yields Equal only when the printed forms are equal: %s" % (not bad), cmpb.loc())
             if bad:
                 res.violation("P4", "cmp|equal-without-string-equality", "Revision::cmp can yield Equal for revisions whose printed forms differ: %s" % bad[:3], cmpb.loc())
